@@ -328,12 +328,14 @@ func planFormat(format string, args []tengo.Object) *plan {
 
 // Named switches of open findings (BUILDING.md rule 3). While a switch is on,
 // cases matching the finding's exact input pattern are excluded from the
-// oracle clause they break (counted as discards "known:<id>").
+// oracle clause they break (counted as discards "known:<id>"). All four
+// findings are repaired in /repo: every switch is off, the patterns are judged
+// by the ordinary clauses, the reproducers are under replays/C17/fixed.
 var openFindings = map[string]bool{
-	"F18":          true, // %v renders Object.String()
-	"F19":          true, // format(f)/fmt.sprintf(f) with no arguments return f verbatim
-	"F21":          true, // %#g / %#G digit count for values with a leading "0."
-	"F-C17-hexlen": true, // %x/%X of string-like operands bypasses MaxStringLen
+	"F18":          false, // %v rendered Object.String(); repaired by 35c2043 (documented default formats, like Go)
+	"F19":          false, // format(f)/fmt.sprintf(f) with no arguments returned f verbatim; repaired by e1b2eba
+	"F21":          false, // %#g / %#G digit count for values with a leading "0."; repaired by 73e3213
+	"F-C17-hexlen": false, // %x/%X of string-like operands bypassed MaxStringLen; repaired by 5aab558
 }
 
 // C17_SWITCH_OFF=F18,F21 turns exclusion switches off for one run (used to
